@@ -5,8 +5,12 @@ import (
 	"go/constant"
 	"go/token"
 	"go/types"
+	"os"
+	"runtime"
+	"strconv"
 	"strings"
 	"sync"
+	"sync/atomic"
 	"time"
 
 	"golang.org/x/tools/go/ssa"
@@ -113,6 +117,39 @@ func (w *Worker) tick() {
 	if w.steps&0xfff == 0 && time.Now().After(w.deadline) {
 		panic(BoundExceeded{"wall-clock budget"})
 	}
+	if w.steps&0x3ffff == 0 && memOver() {
+		panic(BoundExceeded{"memory budget"})
+	}
+}
+
+// memOver: the process heap is over the budget (VERIF_MEM_GB, default 20).  Sampled by a
+// background goroutine once a second; every job that notices ends as "bound: memory budget"
+// (inconclusive), so that a path explosion never takes down the whole check by OOM.
+var memFlag int32
+var memOnce sync.Once
+
+func memOver() bool {
+	memOnce.Do(func() {
+		limit := uint64(20) << 30
+		if s := os.Getenv("VERIF_MEM_GB"); s != "" {
+			if n, err := strconv.Atoi(s); err == nil && n > 0 {
+				limit = uint64(n) << 30
+			}
+		}
+		go func() {
+			var ms runtime.MemStats
+			for {
+				runtime.ReadMemStats(&ms)
+				if ms.HeapAlloc > limit {
+					atomic.StoreInt32(&memFlag, 1)
+				} else if ms.HeapAlloc < limit/2 {
+					atomic.StoreInt32(&memFlag, 0)
+				}
+				time.Sleep(time.Second)
+			}
+		}()
+	})
+	return atomic.LoadInt32(&memFlag) != 0
 }
 
 func (f *frame) get(w *Worker, v ssa.Value) Value {
